@@ -23,7 +23,7 @@ ID = "C09"
 LEVEL = "exploration"
 BATCH = 1
 TIMEOUT = 600
-REQUIRED_OBS = ["macro_sets_checked", "python_modules_executed", "summaries_checked", "enzo_tables_checked", "tag_multiply_charged", "tag_labelled",
+REQUIRED_OBS = ["macro_sets_checked", "python_modules_executed", "summaries_checked", "enzo_tables_checked", "patch_from_second_process_checked", "tag_multiply_charged", "tag_labelled",
                 "tag_ice_both_prefixes", "tag_grain_groups", "tag_excited_star", "tag_isomer_prefix", "tag_upper_replace", "tag_two_spellings", "tag_two_grain_groups"]
 RULE = ("networks over species with multiply charged ions (up to ++++ / ---), o/p/m labels, ice species under '#' (API/KIDA) and 'G' "
         "(Leeds) prefixes, grains with group numbers, excited species (H2*), c-/l- isomers, an upper-case element list with replacement; "
@@ -242,6 +242,28 @@ def run_case(case, ctx):
             if summ["num_of_elements"] != macc["NELEMENTS"] or summ["num_of_reactions"] != macc["NREACTIONS"]:
                 viol.append(violation("summary_disagrees", f"[summary] elements/reactions {summ['num_of_elements']}/{summ['num_of_reactions']} vs macros "
                                       f"{macc['NELEMENTS']}/{macc['NREACTIONS']}"))
+            # ---- the simulation-code patch rendered LATER, by another `naunet render --patch enzo` process (its own string-hash seed):
+            #      its per-species tables must line up with the index macros of the project rendered above
+            if case["enzo"]:
+                import os, subprocess
+                hs = str(1 + (sum(map(ord, "".join(case["names"]))) % 9))
+                code = ("import sys, logging; logging.disable(logging.CRITICAL)\n"
+                        "from pathlib import Path\nfrom verif import clihelp\n"
+                        "rc, out, err = clihelp.run_command('render', '--patch enzo', Path('.'))\nsys.exit(3 if rc else 0)\n")
+                env = dict(os.environ, PYTHONHASHSEED=hs, TQDM_DISABLE="1")
+                cp = subprocess.run([common.PY, "-c", code], cwd=str(d), env=env, capture_output=True, text=True, timeout=300)
+                eh = d / "enzo" / "naunet_enzo.h"
+                if cp.returncode != 0 or not eh.exists():
+                    viol.append(violation("generator_raised", f"naunet render --patch enzo (separate process) failed rc={cp.returncode}: {cp.stderr[-300:]}"))
+                else:
+                    txt = eh.read_text()
+                    defs = [a for a, _ in re.findall(r"^#define A_(\S+) (\S+)\s*$", txt, flags=re.M)]
+                    tm = re.search(r"A_Table\[NSPECIES\] = \{(.*?)\};", txt, flags=re.S)
+                    table = [t.strip()[2:] for t in tm.group(1).replace("\n", " ").split(",") if t.strip()] if tm else None
+                    obs["patch_from_second_process_checked"] += 1
+                    if defs != mnames or table != mnames:
+                        viol.append(violation("enzo_tables_disagree", f"patch rendered by a second process (PYTHONHASHSEED={hs}): A_ macros {defs[:8]} / A_Table "
+                                              f"{(table or [])[:8]} vs index macros of the project {mnames[:8]}", hashseed=hs))
         except Exception as e:
             viol.append(violation("generator_raised", f"naunet init --render: {type(e).__name__}: {e}", trace=traceback.format_exc()[-600:]))
     # ---- Enzo patch tables
